@@ -91,8 +91,9 @@ def conservation_problem(orig_src, rem_src, piece_src, container_cls=''):
 
 
 def _loss_kind(q, src0, node):
-    """classify a conservation failure for the finding key: '.leading_comment' when the only difference is that own-line
-    comments of the block directly above the element (its leading trivia) are in neither result"""
+    """classify a conservation failure for the finding key: '.trivia_comment' when the only difference is that comments
+    of the element's own trivia - the own-line comment block directly above it, the line comment after its last line -
+    are in neither result"""
     import re
     m = re.match(r"lost \[(.*)\] gained \[\]$", q)
     if not m:
@@ -101,18 +102,21 @@ def _loss_kind(q, src0, node):
     if not lost or any(k != '#' for k, _ in lost):
         return ''
     try:
-        ln = node.pars().ln if node.loc is not None else None
+        loc = node.pars() if node.loc is not None else None
     except Exception:
-        ln = None
-    if ln is None:
+        loc = None
+    if loc is None:
         return ''
     lines = src0.split('\n')
-    above = []
-    i = ln - 1
+    mine = []
+    i = loc.ln - 1
     while i >= 0 and lines[i].strip().startswith('#'):
-        above.append(lines[i].strip())
+        mine.append(lines[i].strip())
         i -= 1
-    return '.leading_comment' if all(t in above for _, t in lost) else ''
+    tail = lines[loc.end_ln][loc.end_col:]
+    if '#' in tail and not tail[:tail.index('#')].strip(' \t,)]}'):
+        mine.append(tail[tail.index('#'):].rstrip())
+    return '.trivia_comment' if all(t in mine for _, t in lost) else ''
 
 
 def copy_step(sw, path, cat):
